@@ -445,8 +445,10 @@ type AtSpec struct {
 	Kind   string // "call", "return", "send", "recv"
 	Target string // callee name / channel field; "" for return
 	Ord    int    // ordinal, -1 = every occurrence
-	What   string // "assert", "assume"
+	What   string // "assert", "assume", "set"
+	After  bool   // evaluated after the call (result bound) instead of before
 	C      Clause
+	SetLHS Expr // for "set": ghost variable or ghost field application
 }
 
 type LetDef struct {
@@ -454,7 +456,14 @@ type LetDef struct {
 	E    Expr
 }
 
+type GhostVar struct {
+	Name string
+	Sort Sort
+	Init Expr
+}
+
 type Contract struct {
+	GhostVars []GhostVar
 	Name     string
 	Results  []string
 	Requires []Clause
@@ -486,6 +495,12 @@ type GhostField struct {
 	Sort Sort
 }
 
+type UFDecl struct {
+	Name  string
+	Arity int
+	Sort  Sort
+}
+
 type SpecSet struct {
 	Contracts map[string]*Contract
 	Externs   map[string]*Contract
@@ -494,12 +509,14 @@ type SpecSet struct {
 	Ghosts    map[string]*GhostField
 	ChanInvs  map[string]*PureFn // "fsm.readerMsgCh" -> predicate over v
 	Axioms    []Clause
+	UFs       map[string]*UFDecl
 }
 
 func newSpecSet() *SpecSet {
 	return &SpecSet{
 		Contracts: map[string]*Contract{}, Externs: map[string]*Contract{}, Callbacks: map[string]*Contract{},
 		Pures: map[string]*PureFn{}, Ghosts: map[string]*GhostField{}, ChanInvs: map[string]*PureFn{},
+		UFs: map[string]*UFDecl{},
 	}
 }
 
@@ -545,7 +562,7 @@ func loadSpecLines(path string) ([]specLine, error) {
 }
 
 var clauseKeywords = map[string]bool{
-	"func": true, "extern": true, "callback": true, "pure": true, "ghostfield": true, "chaninv": true, "axiom": true,
+	"func": true, "extern": true, "callback": true, "pure": true, "ghostfield": true, "chaninv": true, "axiom": true, "uf": true, "ghostvar": true,
 	"requires": true, "ensures": true, "modifies": true, "let": true, "ghost": true, "returns": true,
 	"at": true, "trusted": true, "noinline": true, "params": true,
 }
@@ -700,6 +717,24 @@ func (ss *SpecSet) parseLine(l specLine, cur **Contract) error {
 		ss.Ghosts[name] = g
 		*cur = nil
 		return nil
+	case "uf":
+		// uf name(arity) int|bool
+		k := strings.Index(rest, "(")
+		k2 := strings.Index(rest, ")")
+		if k < 0 || k2 < k {
+			return fmt.Errorf("malformed uf declaration")
+		}
+		ar, err := strconv.Atoi(strings.TrimSpace(rest[k+1 : k2]))
+		if err != nil {
+			return fmt.Errorf("uf arity: %v", err)
+		}
+		u := &UFDecl{Name: strings.TrimSpace(rest[:k]), Arity: ar, Sort: SInt}
+		if strings.TrimSpace(rest[k2+1:]) == "bool" {
+			u.Sort = SBool
+		}
+		ss.UFs[u.Name] = u
+		*cur = nil
+		return nil
 	case "chaninv":
 		// chaninv fsm.readerMsgCh(v) = expr
 		k := strings.Index(rest, "(")
@@ -773,6 +808,30 @@ func (ss *SpecSet) parseLine(l specLine, cur **Contract) error {
 		} else {
 			c.Ghosts = append(c.Ghosts, d)
 		}
+	case kw == "ghostvar":
+		// ghostvar name int|bool|intarray = init
+		eq := strings.Index(rest, "=")
+		if eq < 0 {
+			return fmt.Errorf("malformed ghostvar")
+		}
+		name, srt := splitWord(rest[:eq])
+		gv := GhostVar{Name: name}
+		switch strings.TrimSpace(srt) {
+		case "int", "":
+			gv.Sort = SInt
+		case "bool":
+			gv.Sort = SBool
+		case "intarray":
+			gv.Sort = SArrInt
+		default:
+			return fmt.Errorf("unknown ghostvar sort %q", srt)
+		}
+		e, err := parseExpr(rest[eq+1:])
+		if err != nil {
+			return err
+		}
+		gv.Init = e
+		c.GhostVars = append(c.GhostVars, gv)
 	case kw == "trusted":
 		c.Trusted = true
 	case kw == "noinline":
@@ -830,10 +889,34 @@ func (ss *SpecSet) parseLine(l specLine, cur **Contract) error {
 			a.Target = tgt
 		}
 		what, r3 := splitWord(r2)
-		if what != "assert" && what != "assume" {
-			return fmt.Errorf("expected assert/assume after at-anchor, got %q", what)
+		if what == "after" {
+			a.After = true
+			what, r3 = splitWord(r3)
+		}
+		if what != "assert" && what != "assume" && what != "set" {
+			return fmt.Errorf("expected assert/assume/set after at-anchor, got %q", what)
 		}
 		a.What = what
+		if what == "set" {
+			eq := strings.Index(r3, "=")
+			for eq >= 0 && eq+1 < len(r3) && (r3[eq+1] == '=' || (eq > 0 && strings.ContainsRune("=!<>", rune(r3[eq-1])))) {
+				nx := strings.Index(r3[eq+2:], "=")
+				if nx < 0 {
+					eq = -1
+					break
+				}
+				eq = eq + 2 + nx
+			}
+			if eq < 0 {
+				return fmt.Errorf("malformed set")
+			}
+			lhs, err := parseExpr(r3[:eq])
+			if err != nil {
+				return err
+			}
+			a.SetLHS = lhs
+			r3 = r3[eq+1:]
+		}
 		cl, err := mkClause(r3, l)
 		if err != nil {
 			return err
